@@ -76,6 +76,11 @@ CHECKS = {
    note="The sequential pool decides order-dependence (last/first finisher, stale scratch, early/late background renders), not true data races or rayon-internal interleavings; those are only sampled by the rayon runs. Modular-only corpus.",
    technique="exhaustive enumeration of pool task orders up to a deviation bound on the real renderer (controlled sequential pool), differential vs pool-less render",
    design_ref="2.3, 4/C07", engine="mc"),
+ "C16": dict(category="exploration",
+   text="For all 27 varblock transform types on every code path (generic, SSE2, SSE4.1 through a cfg-gated hook, independent of runtime dispatch): unit impulses at every coefficient position (thorough; quick: every position up to 64x64 and a capped row/column/diagonal/lattice set above) plus DC-only, all-ones and pseudo-random blocks, under sub-grid offsets and padded strides with canaries. Oracle: all paths and alignments agree within 5e-5 of the block maximum; the 18 DCT-family types equal the separable inverse DCT evaluated in f64 within 1e-4; a DC-only block is flat for every type. By linearity the impulses determine each operator completely.",
+   note="For Hornuss, DCT2x2, DCT4x4, DCT4x8/8x4 and AFV the reference does not model the coefficient arrangement: they are covered by path agreement, superposition inputs and the DC definition only. Rectangular-DCT coefficient layout is inferred from one impulse. LF injection is not isolated here.",
+   technique="exhaustive basis-vector enumeration (complete by linearity) vs f64 definition and across code paths",
+   design_ref="4/C16", engine="mc"),
 }
 NOT_YET = "check not built yet in this round (work in progress; see DESIGN.md section 10)"
 NA = {}
